@@ -35,8 +35,14 @@ def interleaved(n, S, L, dtype=np.int64):
     return SymArr.fresh((z3.simplify(2 * n),), f, "int", dtype)
 
 
-def sym_shape(ctx, name="sh", n=None, dtype=np.int64, lemmas=True):
+def index_dtype():
+    from npstructures.raggedshape import ViewBase
+    return ViewBase._dtype
+
+
+def sym_shape(ctx, name="sh", n=None, dtype=None, lemmas=True):
     from npstructures.raggedshape import RaggedShape
+    dtype = dtype or index_dtype()
     n = z3.Int(fresh_name(name + "_n")) if n is None else n
     S = z3.Function(fresh_name(name + "_S"), z3.IntSort(), z3.IntSort())
     L = z3.Function(fresh_name(name + "_L"), z3.IntSort(), z3.IntSort())
@@ -58,8 +64,9 @@ def sym_shape(ctx, name="sh", n=None, dtype=np.int64, lemmas=True):
     return g
 
 
-def sym_view(ctx, name="vw", n=None, dtype=np.int64, step=None):
+def sym_view(ctx, name="vw", n=None, dtype=None, step=None):
     from npstructures.raggedshape import RaggedView
+    dtype = dtype or index_dtype()
     n = z3.Int(fresh_name(name + "_n")) if n is None else n
     S = z3.Function(fresh_name(name + "_S"), z3.IntSort(), z3.IntSort())
     L = z3.Function(fresh_name(name + "_L"), z3.IntSort(), z3.IntSort())
